@@ -17,6 +17,8 @@ CLAIMED = {
          "Seeded exploration; each transaction of each accepted block is applied alone with the real applyTxOnState and its effect on every known address is compared with the signer and the named exceptions.", LEDGER_NOTE, "3 C05"),
  "C06": ("exploration", "deterministic simulation: replayer client, Byzantine block with replayed tx, rollbacks; history check of the canonical chain of every replica",
          "Seeded exploration across 1-3 epochs; the canonical chain read back from each replica's store is checked for duplicate hashes, nonce sequence per (sender, epoch) and epoch match.", LEDGER_NOTE, "3 C06"),
+ "C08": ("exploration", "deterministic simulation: partition/heal with two certified branches, Byzantine rewriting of certificates and bundles on the wire, real fork resolver; adoption judged by reference certificate predicate and post-adoption equality with the peer",
+         "Seeded exploration of partitions; the converse (every valid heavier fork is adopted) is deliberately not demanded.", LEDGER_NOTE + " Downloader.SeekForkedBlocks is replaced by the harness moving BlocksRange bytes and fetching bodies.", "3 C08"),
  "C09": ("fault_enumeration", "deterministic simulation with crash injection: every storage unit of recorded operations is a crash point; restart + catch-up vs uncrashed twin",
          "For each recorded operation the crash points are enumerated completely (every atomic storage unit); which scenarios and operations are recorded is seeded sampling. Second-order crashes are sampled.",
          "The store is modelled as prefix-durable over atomic units (put/delete/batch); LevelDB itself is not exercised. " + LEDGER_NOTE, "3 C09"),
